@@ -336,16 +336,25 @@ func ruleT7(c *Ctx) {
 					loops = append(loops, fwdLoop{k, x.Body})
 				}
 			case *ast.IfStmt:
-				if be, ok := ast.Unparen(x.Cond).(*ast.BinaryExpr); ok && be.Op == token.EQL {
-					for _, e := range []ast.Expr{be.X, be.Y} {
-						if s, ok := constStr(info, e); ok {
-							if _, isOp := opTok[s]; isOp {
-								sites = append(sites, site{s, x.Body.List, x.Pos()})
+				// `op == "+"`, also as a conjunct: `isConst && op == "+"`
+				for _, s := range opConjuncts(info, x.Cond) {
+					sites = append(sites, site{s, x.Body.List, x.Pos()})
+				}
+			case *ast.SwitchStmt:
+				if x.Tag == nil {
+					// tagless switch: case isConst && op == "+":
+					for _, cl := range x.Body.List {
+						cc, ok := cl.(*ast.CaseClause)
+						if !ok {
+							continue
+						}
+						for _, e := range cc.List {
+							for _, s := range opConjuncts(info, e) {
+								sites = append(sites, site{s, cc.Body, cc.Pos()})
 							}
 						}
 					}
 				}
-			case *ast.SwitchStmt:
 				if x.Tag != nil && isStringType(info.TypeOf(x.Tag)) {
 					for _, row := range rowsOf(x) {
 						for _, k := range row.Keys {
@@ -714,4 +723,32 @@ func forwardIndexLoopOver(fs *ast.ForStmt, field string) (string, bool) {
 		return "", false
 	}
 	return id.Name, true
+}
+
+// opConjuncts: the operator strings K for which `X == "K"` is the condition or one of its
+// top-level && conjuncts.
+func opConjuncts(info *types.Info, cond ast.Expr) []string {
+	var out []string
+	var walk func(e ast.Expr)
+	walk = func(e ast.Expr) {
+		be, ok := ast.Unparen(e).(*ast.BinaryExpr)
+		if !ok {
+			return
+		}
+		switch be.Op {
+		case token.LAND:
+			walk(be.X)
+			walk(be.Y)
+		case token.EQL:
+			for _, x := range []ast.Expr{be.X, be.Y} {
+				if s, ok := constStr(info, x); ok {
+					if _, isOp := opTok[s]; isOp {
+						out = append(out, s)
+					}
+				}
+			}
+		}
+	}
+	walk(cond)
+	return out
 }
